@@ -11,11 +11,12 @@ CONSTANTS MaxN,        \* created clusters: 3..MaxN nodes
 Addr(i) == "00000000000000000000000000000000000000a" \o ToString(i)
 FortCfg(ver, art) == [src |-> "fort", art |-> art, ver |-> ver, n |-> 3, t |-> 2, v |-> 2, net |-> "goerli",
                       amounts |-> <<>>, comp |-> FALSE, gas |-> 30000000, fee |-> <<Addr(1), Addr(2)>>,
-                      wd |-> <<Addr(3), Addr(4)>>, signed |-> ver >= 3]
+                      wd |-> <<Addr(3), Addr(4)>>, signed |-> ver >= 3, flaw |-> "none"]
+FlawedCfg(ver, art, f) == [FortCfg(ver, art) EXCEPT !.flaw = f]
 CreateCfg(n, t, am, comp) ==
                      [src |-> "create", art |-> "lock", ver |-> Latest, n |-> n, t |-> t, v |-> 2, net |-> "hoodi",
                       amounts |-> am, comp |-> comp, gas |-> 36000000, fee |-> <<Addr(1), Addr(2)>>,
-                      wd |-> <<Addr(3), Addr(4)>>, signed |-> FALSE]
+                      wd |-> <<Addr(3), Addr(4)>>, signed |-> FALSE, flaw |-> "none"]
 \* the artifacts an honest writer produces for a configuration, over abstract keys
 AmountSeq(c) == SetToSeq(ExpAmountStrs(c))
 Key(i) == "K" \o ToString(i)
@@ -38,12 +39,13 @@ CanonFiles(c) == [j \in DOMAIN AmountSeq(c) |->
                                                    fork |-> ForkOf[c.net], net |-> c.net]]]]
 ThresholdsOf(n) == IF Thresholds = "all" THEN {0} \cup 2..n ELSE {0}
 MCInit == \/ \E ver \in FortVers, art \in {"lock", "def"} : InitWith(FortCfg(ver, art))
+          \/ \E ver \in FortVers, art \in {"lock", "def"}, f \in Flaws : FlawApplies(f, ver, art) /\ InitWith(FlawedCfg(ver, art, f))
           \/ \E n \in 3..MaxN : \E t \in ThresholdsOf(n) :
                \E am \in {<<>>, <<1, 31>>, <<16, 16, 8>>} : \E comp \in BOOLEAN : InitWith(CreateCfg(n, t, am, comp))
 \* bound of the exploration only: the next case starts from the pristine file again (the design spec allows starting
 \* it right after a finished one, which multiplies transitions, not states)
 Discard == cur.state = "done" /\ cur' = Pristine /\ verdict' = "intact" /\ UNCHANGED <<cfg, phase, lk, obs>>
-MCNext == \/ Create \/ Load(CanonView(cfg)) \/ Verify
+MCNext == \/ Create \/ Load(CanonView(cfg)) \/ Verify \/ VerifyFlawed
           \/ \E i \in 1..cfg.n : Keystores(i) \/ Deposits(i, CanonFiles(cfg))
           \/ \E S \in SUBSET (1..cfg.n) : Combine(S)
           \/ cur.state = "pristine" /\ \E r \in Rows : \E kind \in KindsOf(r) : \E ch \in BOOLEAN :
@@ -59,4 +61,5 @@ CanonAccepted == /\ ViewOK(cfg, CanonView(cfg))
 \* controls that MUST be violated: the life-cycle reaches recombination / a finished tamper case
 NeverCombined == obs.kind # "combine"
 NeverFinished == ~Finished
+NeverFlawRefused == ~(cfg.flaw # "none" /\ verdict = "detected")
 ====
